@@ -2805,3 +2805,82 @@ class TreeFamily(Family):
         return 'test/calculator', cls.source(), ('every ordered pair of the 20 binary operators in both tree shapes, every unary/postfix operator over and under every binary one, calls and '
                                                  'indexing against every binary operator, 300 pseudo-random trees up to depth 4 (VERIF_SEED); each printed minimally and fully '
                                                  'parenthesised with varying spacing, comments and keyword case; 5 variable assignments x 2 managers; calculator vs direct tree evaluation')
+
+
+ROUNDTRIP_TEST = r'''package variants_test
+
+import (
+	"math"
+	"testing"
+	"time"
+
+	"github.com/pip-services3-gox/pip-services3-expressions-gox/variants"
+)
+
+// C07 (bounded): every widening conversion the statement lists, out and back, over boundary values of the source type
+// (0, +-1, +-2^24+1, +-2^31, +-2^53+1, min/max), under the type-unsafe manager; and for every pair of types and every
+// sample value: a successful conversion has exactly the requested type, and where the type-safe manager succeeds it
+// agrees with the type-unsafe one.
+func TestVerifReplay(t *testing.T) {
+	unsafe, safe := variants.NewTypeUnsafeVariantOperations(), variants.NewTypeSafeVariantOperations()
+	ints := []int{0, 1, -1, 7, 16777217, -16777217, 2147483648, -2147483649, 9007199254740993, -9007199254740993, math.MaxInt64, math.MinInt64}
+	back := func(v *variants.Variant, via variants.VariantType, what string) {
+		mid, err := unsafe.Convert(v, via)
+		if err != nil { t.Errorf("%s: %v (type %d) -> type %d fails: %v", what, v, v.Type(), via, err); return }
+		if mid.Type() != via { t.Errorf("%s: %v -> type %d delivered type %d", what, v, via, mid.Type()); return }
+		r, err := unsafe.Convert(mid, v.Type())
+		if err != nil { t.Errorf("%s: %v -> %v (type %d) -> back fails: %v", what, v, mid, via, err); return }
+		if r.Type() != v.Type() || !r.Equals(v) { t.Errorf("%s: %v -> %v -> %v: the round trip through type %d changes the value", what, v, mid, r, via) }
+	}
+	for _, x := range ints {
+		back(variants.VariantFromInteger(x), variants.Long, "integer<->long")
+		back(variants.VariantFromLong(int64(x)), variants.Integer, "long<->integer")
+		back(variants.VariantFromInteger(x), variants.String, "integer<->string")
+		back(variants.VariantFromLong(int64(x)), variants.String, "long<->string")
+		if x > -(1<<53) && x < 1<<53 {
+			back(variants.VariantFromInteger(x), variants.Double, "integer<->double (exact range)")
+			back(variants.VariantFromLong(int64(x)), variants.Double, "long<->double (exact range)")
+		}
+		if ms := int64(x); ms > math.MinInt64/1000000 && ms < math.MaxInt64/1000000 {
+			back(variants.VariantFromInteger(x), variants.TimeSpan, "integer<->time span (milliseconds)")
+			back(variants.VariantFromLong(ms), variants.TimeSpan, "long<->time span (milliseconds)")
+		}
+		if s := int64(x); s > -(1<<40) && s < 1<<40 {
+			back(variants.VariantFromInteger(x), variants.DateTime, "integer<->date-time (Unix seconds)")
+			back(variants.VariantFromLong(s), variants.DateTime, "long<->date-time (Unix seconds)")
+		}
+	}
+	for _, f := range []float32{0, 1.5, -2.25, 16777216, 3.4e38, 1e-40} { back(variants.VariantFromFloat(f), variants.Double, "float->double") }
+	for _, b := range []bool{true, false} {
+		for _, via := range []variants.VariantType{variants.Integer, variants.Long, variants.Float, variants.Double, variants.String} { back(variants.VariantFromBoolean(b), via, "boolean<->numeric/string") }
+	}
+	samples := []*variants.Variant{variants.EmptyVariant(), variants.VariantFromInteger(3), variants.VariantFromLong(-9007199254740993), variants.VariantFromFloat(1.5), variants.VariantFromDouble(-2.25),
+		variants.VariantFromString("12"), variants.VariantFromString("x"), variants.VariantFromBoolean(true), variants.VariantFromDateTime(time.Unix(86400, 0)), variants.VariantFromTimeSpan(1500 * time.Millisecond),
+		variants.VariantFromArray([]*variants.Variant{variants.VariantFromInteger(1)})}
+	for _, v := range samples {
+		for to := variants.Null; to <= variants.Array; to++ {
+			var ru, rs *variants.Variant
+			var eu, es error
+			func() { defer func() { if p := recover(); p != nil { t.Errorf("unsafe Convert(%v, %d) panicked: %v", v, to, p) } }(); ru, eu = unsafe.Convert(v, to) }()
+			func() { defer func() { if p := recover(); p != nil { t.Errorf("safe Convert(%v, %d) panicked: %v", v, to, p) } }(); rs, es = safe.Convert(v, to) }()
+			if eu == nil && ru != nil && to != variants.Object && ru.Type() != to { t.Errorf("unsafe Convert(%v, %d) delivered type %d", v, to, ru.Type()) }
+			if es == nil && rs != nil && to != variants.Object && rs.Type() != to { t.Errorf("safe Convert(%v, %d) delivered type %d", v, to, rs.Type()) }
+			if es == nil && rs != nil && (eu != nil || ru == nil || ru.Type() != rs.Type() || ru.String() != rs.String()) { t.Errorf("the managers disagree on Convert(%v, %d): safe %v, unsafe %v (%v)", v, to, rs, ru, eu) }
+		}
+	}
+}
+'''
+
+
+class RoundTripFamily(Family):
+    @classmethod
+    def source(cls):
+        return ROUNDTRIP_TEST
+
+    def test_source(self, vals):
+        return 'variants', self.source()
+
+    @classmethod
+    def bounded_source(cls, prog, fname):
+        return 'variants', cls.source(), ('every listed round trip over 12 boundary integers (0, +-1, +-2^24+1, +-2^31, +-2^53+1, min, max), 6 floats and both booleans; '
+                                          'requested type and manager agreement for 11 sample values x 11 target types')
